@@ -36,6 +36,42 @@ var specialNames = []string{"a b", "p%q", "h#h", "q?q", "s;s", "x+y", "q\"q", "<
 
 var methods = []string{"OPTIONS", "GET", "HEAD", "PUT", "DELETE", "MKCOL", "COPY", "MOVE", "PROPFIND", "OTHER"}
 
+// randomName draws a file name from the whole range of what a Linux directory
+// entry may be: arbitrary Unicode (BMP, astral, combining marks, bidi controls,
+// no-break and zero-width characters), ASCII punctuation, control characters
+// and, rarely, bytes that are not valid UTF-8 - but no '/' and no NUL.
+func randomName(r *rt.Rand) string {
+	var b []byte
+	n := 1 + r.Intn(6)
+	for i := 0; i < n; i++ {
+		switch r.Weighted([]int{30, 20, 15, 8, 8, 6, 6, 4, 3}) {
+		case 0:
+			b = append(b, "abcxyzABC019"[r.Intn(12)])
+		case 1:
+			b = append(b, " !\"#$%&'()*+,-.:;<=>?@[\\]^_`{|}~"[r.Intn(31)])
+		case 2:
+			b = append(b, string(rune(0xa0+r.Intn(0x2000)))...)
+		case 3:
+			b = append(b, string(rune(0x4e00+r.Intn(0x5000)))...)
+		case 4:
+			b = append(b, string(rune(0x1f300+r.Intn(0x400)))...)
+		case 5:
+			b = append(b, string(rune(0x300+r.Intn(0x70)))...) // combining marks
+		case 6:
+			b = append(b, string([]rune{0x200b, 0x200d, 0x200e, 0x202e, 0xfeff, 0x2028, 0x85, 0xad}[r.Intn(8)])...)
+		case 7:
+			b = append(b, byte(1+r.Intn(31))) // control characters
+		case 8:
+			b = append(b, byte(0x80+r.Intn(0x80))) // not UTF-8
+		}
+	}
+	s := string(b)
+	if s == "." || s == ".." {
+		s += "x"
+	}
+	return s
+}
+
 func newGen(seed uint64, tier, property, profile string) *gen {
 	g := &gen{r: rt.NewRand(seed), j: model.NewJudge(), tier: tier}
 	g.plan = &Plan{Format: 1, Property: property, Profile: profile, RunSeed: seed,
@@ -54,6 +90,9 @@ func newGen(seed uint64, tier, property, profile string) *gen {
 		g.names = append(g.names, "a")
 		for len(g.names) < n {
 			c := rt.Pick(g.r, specialNames)
+			if g.r.Chance(0.3) {
+				c = randomName(g.r)
+			}
 			dup := false
 			for _, x := range g.names {
 				if x == c {
